@@ -24,7 +24,7 @@ EXPLANATION = (
     "rounded); R-default-minfreqmod (min_freq_mod defaults to min_freq / 2 only when None: an explicit 0 is kept)."
 )
 NOT_DECIDED = "completeness of the recursive enumerator (all compositions), scipy's chi2/kruskal, numerical maximality on a dataset"
-FLOORS = {"R-select-order": 3, "R-viability-formula": 1, "R-adjacency-order": 3, "R-aggregate-fill": 2, "R-measure-keys": 2, "R-measure-formula": 3, "R-hooks-exhaustive": 2, "R-drop-only-if-none": 5, "R-enum-bounds": 11, "R-printer-agreement": 2, "R-default-minfreqmod": 2}
+FLOORS = {"R-select-order": 3, "R-viability-formula": 1, "R-adjacency-order": 3, "R-aggregate-fill": 2, "R-measure-keys": 2, "R-measure-formula": 3, "R-hooks-exhaustive": 2, "R-drop-only-if-none": 5, "R-enum-bounds": 11, "R-printer-agreement": 2, "R-default-minfreqmod": 2, "R-value-truthiness": 1}
 
 
 def check(ctx):
@@ -42,6 +42,9 @@ def check(ctx):
     from . import c02
 
     c02.rule_default(ctx)
+    from .truthiness import check_or_default
+
+    check_or_default(ctx, "R-value-truthiness", [f for f in ctx.repo.all_functions() if f.module.relpath.startswith("AutoCarver/carvers/")])
 
 
 _D1_BIN_FIXED = """        # converting back to dataframe, keeping groups in the order of the feature's modalities
